@@ -1703,6 +1703,14 @@ func (db *DB) Dump(w io.Writer, tableNames ...string) error {
 	defer conn.Close()
 	ctx := context.Background()
 
+	// The dump is made of many separate reads (the schema, then every table).
+	// Perform them all inside one read transaction so they see a single point
+	// in time, even when writes are committed while the dump is in progress.
+	if _, err := conn.ExecContext(ctx, "BEGIN"); err != nil {
+		return err
+	}
+	defer conn.ExecContext(ctx, "ROLLBACK")
+
 	// Convenience function to convert string query to protobuf.
 	commReq := func(query string) *command.Request {
 		return &command.Request{
